@@ -4,7 +4,7 @@ Require Extraction.
 Require Import ExtrOcamlBasic.
 Require Import GSE.model.Base GSE.model.Types GSE.model.Header GSE.model.Crc GSE.model.Ext
   GSE.model.Encap GSE.model.Memory GSE.model.Decap GSE.model.Utils
-  GSE.proofs.EncapSpec GSE.proofs.DecapSpec.
+  GSE.proofs.EncapSpec GSE.proofs.DecapSpec GSE.proofs.ExtSpec.
 Extraction Language OCaml.
 Set Extraction Optimize.
 Extraction "model.ml"
@@ -16,5 +16,5 @@ Extraction "model.ml"
   encap encap_frag encap_ext encap_preview encap_frag_preview
   mem_new provision new_pdu new_frag take_frag save_frag
   dec_new dec_reset dec_provision dec_new_pdu decap peek
-  encap_hl encap_frag_hl decap_hl
+  encap_hl encap_frag_hl decap_hl encap_ext_hl
   gen_complete parse_complete gen_first parse_first gen_inter parse_inter gen_end parse_end.
